@@ -177,9 +177,15 @@ def bounded(rep, tier, seed):
                     if all(k is None for k in combo):
                         continue
                     bindings = {prefix + nm: value_for(nm, k, 1 + len(prefix)) for nm, k in zip(names, combo) if k}
-                    for ref in refs:
+                    # the mapping handed to evaluate() is unordered as far as the property goes: every listing order
+                    # (quick: as written and reversed; thorough: all permutations) must resolve alike
+                    orders = [list(bindings)]
+                    if len(bindings) > 1:
+                        orders = list(itertools.permutations(bindings)) if tier == "thorough" else [list(bindings), list(reversed(list(bindings)))]
+                    for order, ref in itertools.product(orders, refs):
+                        bindings = {k: bindings[k] for k in order}
                         n += 1
-                        distinct.add((pkg, tuple(sorted(bindings)), ref))
+                        distinct.add((pkg, tuple(bindings), ref))
                         want = reference_resolve(bindings, pkg, ref)
                         try:
                             decls = {k: (ct.MapType if isinstance(v, dict) else ct.IntType) for k, v in bindings.items()}
@@ -216,14 +222,34 @@ def bounded(rep, tier, seed):
         for text, b, want in [("[1, 2].map(x, x + y)", {"x": 10, "y": 100}, [101, 102]), ("[1, 2].map(n, [7, 8].map(n, n))", {}, [[7, 8], [7, 8]]),
                               ("[1, 2].map(x, [7].map(y, x + y))", {}, [[8], [9]]), ("[[1, 2], [3]].map(l, l.map(x, x * 2))", {}, [[2, 4], [6]]),
                               ("[1].map(x, x) == [1] && x == 5", {"x": 5}, True), ("[1, 2].filter(x, [1, 3].exists(y, y == x))", {}, [1]),
-                              ("[1, 2].map(x, x) + [x]", {"x": 9}, [1, 2, 9])]:
+                              ("[1, 2].map(x, x) + [x]", {"x": 9}, [1, 2, 9]),
+                              # a name that is declared but NOT bound: the macro variable exists inside the body only
+                              # a name that is declared but NOT bound: the macro variable exists inside the body only, so after the
+                              # macro the name denotes what it denotes without the macro (whatever the library makes of a bare
+                              # declaration - the statement does not say; the expectation is the macro-free program's outcome)
+                              ("[[1, 2].map(x, x), [x]][1]", {"x": None}, ("same-as", "[x]")), ("[[1, 2].map(x, x), [x]][0]", {"x": None}, [1, 2]),
+                              ("[[1].map(y, [2].map(x, x + y)), [x]][1]", {"x": None}, ("same-as", "[x]")),
+                              ("[[1, 2].map(x, x + y), [y]][1]", {"x": None, "y": 5}, [5]),
+                              ("[[1, 2].filter(x, x > 1), [x]][1]", {"x": None}, ("same-as", "[x]")),
+                              ("[[1, 2].exists(x, x > 1), type(x) == int][1]", {"x": None}, ("same-as", "type(x) == int"))]:
             n += 1
-            try:
-                env = celpy.Environment(annotations={k: ct.IntType for k in b}, runner_class=runner)
-                got = _plain(env.program(env.compile(text)).evaluate({k: ct.IntType(v) for k, v in b.items()}))
-                ok = got == want
-            except Exception as ex:
-                got, ok = repr(ex)[:120], False
+
+            def outcome(text_):
+                try:
+                    env = celpy.Environment(annotations={k: ct.IntType for k in b}, runner_class=runner)
+                    r = env.program(env.compile(text_)).evaluate({k: ct.IntType(v) for k, v in b.items() if v is not None})
+                    try:
+                        return _plain(r)
+                    except TypeError:
+                        return repr(r)
+                except ev.CELEvalError:
+                    return "error"
+                except Exception as ex:
+                    return "escaped " + repr(ex)[:120]
+            got = outcome(text)
+            if isinstance(want, tuple):
+                want = outcome(want[1])
+            ok = got == want and not str(got).startswith("escaped")
             if not ok:
                 fails.append({"runner": runner.__name__, "cel": text, "bindings": b, "observed": repr(got), "expected": want})
     celpy.CELParser.CEL_PARSER = None
